@@ -573,17 +573,17 @@ example : ∃ j, toJSONWith LawfulWitness.codec
 /-- the key `[a="x\"y\\z\n<", b=1.5]` is printed as `k:{"a":"x\"y\\z\n<","b":1.5}` and read back as an
 equivalent element -/
 example : ∃ pe', deserializePE keyEsc = .ok pe' ∧ PE.equals pe' peEsc = true :=
-  std_roundtrip_of_keySorted peEsc keyEsc ser_peEsc ser_peEsc_sorted
+  std_roundtrip_of_keySorted_of_inGoDomain peEsc keyEsc ser_peEsc ser_peEsc_sorted (by decide)
 
 /-- a key whose fields are not in sorted order: both sides of the equivalence are false -/
 example : (∃ pe', deserializePE "k:{\"b\":null,\"a\":null}" = .ok pe' ∧
       PE.equals pe' (.key [("b", .null), ("a", .null)]) = true) ↔
     (PE.key [("b", .null), ("a", .null)]).keySorted = true :=
-  std_roundtrip_key_iff_sorted [("b", .null), ("a", .null)] _ rfl
+  std_roundtrip_key_iff_sorted_of_inGoDomain [("b", .null), ("a", .null)] _ rfl (by decide)
 /-- …and a sorted one: both sides are true -/
 example : (∃ pe', deserializePE "k:{\"name\":\"c\"}" = .ok pe' ∧ PE.equals pe' keyC = true) ↔
     keyC.keySorted = true :=
-  std_roundtrip_key_iff_sorted [("name", .str "c")] _ rfl
+  std_roundtrip_key_iff_sorted_of_inGoDomain [("name", .str "c")] _ rfl (by decide)
 
 example : (PE.key [("a", .int 1), ("b", .str "z")]).keySorted = true := keySorted_of_ascending _ (by decide)
 example : (serializePE keyC).isSome = true := std_total_of_noFloat keyC ⟨by decide, by simp [keyC]⟩
@@ -591,7 +591,7 @@ example : serializePE peEsc ≠ some "." := std_notDot peEsc
 
 /-- the set `{[a=…, b=1.5], [=3], [2], .l[name=c]}` survives the round trip -/
 example : ∃ j, toJSON setEsc = some j ∧ ∃ s', fromJSON j = .ok s' ∧ SetTrie.equals s' setEsc = true :=
-  read_emit_std_of_keysSorted setEsc ser_setEsc_wf ser_setEsc_printable ser_setEsc_sorted
+  read_emit_std_of_keysSorted_of_inGoDomain setEsc ser_setEsc_wf ser_setEsc_printable ser_setEsc_sorted (by decide)
 
 end SMD.C16
 
